@@ -4,10 +4,35 @@ import gc
 import hashlib
 import os
 import shutil
+import sys
 import tempfile
 
 from . import simio
 from .engine import SHM, HarnessError, Violation, forked, h64
+
+LIB_ROOT = os.path.join(os.path.abspath(os.environ.get("VERIF_REPO", "/repo")), "PyMatterSim") + os.sep
+
+
+def line_tracer(limit):
+    """sys.settrace hook: counts 'line' events inside the library's own source files and, when
+    limit > 0, delivers the simulated cancellation at the limit-th one (a Ctrl-C between two
+    lines of a numerical routine)."""
+    state = {"n": 0, "fired": False}
+
+    def local(frame, event, arg):
+        if event == "line":
+            state["n"] += 1
+            if limit and state["n"] == limit and not state["fired"]:
+                state["fired"] = True
+                raise simio.SimInterrupt("simulated cancellation between two source lines")
+        return local
+
+    def glob(frame, event, arg):
+        if frame.f_code.co_filename.startswith(LIB_ROOT):
+            return local
+        return None
+    return glob, state
+
 
 CHUNKS = (8, 24, 64, 256, 8192)
 BUFS = (16, 48, 128, 512, 8192)
@@ -77,16 +102,26 @@ class WorldBase:
         exc_info is None or (type name, message); a raised exception object is parked in
         self._last_exc for hold()/drop() so that the *client* decides its lifetime."""
         io = self.ctx.io
-        io.begin_op(fault)
+        line_fault = fault is not None and fault.get("kind") == "interrupt_line"
+        io.begin_op(None if line_fault else fault)
         if fault:
             self.ctx.faults_configured += 1
         res = None
         exc = None
+        state = None
+        if line_fault:
+            tracer, state = line_tracer(fault["at"])
+            sys.settrace(tracer)
         try:
             res = fn()
         except BaseException as e:  # noqa: BLE001
             exc = e
+        finally:
+            if line_fault:
+                sys.settrace(None)
         nev, dig, fired = io.end_op()
+        if line_fault and state["fired"]:
+            fired = ("interrupt_line", "line", fault["at"])
         if fired:
             self.ctx.faults_fired[fired[0]] = self.ctx.faults_fired.get(fired[0], 0) + 1
             self.ctx.log(f"fault {fired[0]} at {fired[1]}#{fired[2]}")
@@ -168,6 +203,37 @@ class WorldBase:
             # show it under the journal; place the fault blindly
             self.ctx.probe("dry_run_died")
             return 40
+
+    def dry_lines(self, fn):
+        """Number of source lines of the library that fn() executes fault-free (forked child,
+        copy of the sandbox): the space of cancellation instants of this operation."""
+        root = self.ctx.root
+
+        def child():
+            new = root + "-dry"
+            shutil.rmtree(new, ignore_errors=True)
+            os.makedirs(new)
+            try:
+                shutil.copytree(root, new, dirs_exist_ok=True)
+                os.chdir(new)
+                simio.ACTIVE = None
+                tracer, state = line_tracer(0)
+                sys.settrace(tracer)
+                try:
+                    fn()
+                except BaseException:  # noqa: BLE001
+                    pass
+                finally:
+                    sys.settrace(None)
+                return state["n"]
+            finally:
+                os.chdir("/")
+                shutil.rmtree(new, ignore_errors=True)
+        try:
+            return forked(child, timeout=120.0)
+        except HarnessError:
+            self.ctx.probe("dry_run_died")
+            return 0
 
     def pick_fault_event(self, rng, nev):
         """Bias towards the last events (close) and otherwise uniform inside the op."""
